@@ -12,6 +12,7 @@ RULE = ('cases = (start, end) in {zbl, bornmayer, buck, morse, coul+buck, polyno
         '(detach, attach) lattice incl. integer-typed knots x r_min (3 interior points, buck4 type) x three constructions {Python classes, '
         'spline() modifier with > / >= markers, as.buck4 vs its documented long form}; each spline probed at 25+ separations (knots, '
         'nextafter neighbours, +-1e-6, interior lattice, outside); every case executed; non-trivial = every case (all end potentials curved)')
+RULE += '; every spline also with its FIRST part carrying its own lower bound (>= and >, probed below / at / above it); as.buck4 with C = 0 and A = 0'
 ASSUMPTIONS = [
     'the advertised shapes: exp(sum B_i r^i) + C from the public splineCoefficients; 5th-order polynomial below r_min, 3rd-order above',
     'continuity is judged on the advertised shape evaluated from splineCoefficients against exact jets of the end potentials; allowance = backward-error bound of the '
